@@ -18,14 +18,73 @@ def check(v, tier, opts):
     v.outside.append("calendar field getters and round trip through chrono::DateTime (chrono calendar tables: no "
                      "solver answer in 40-55 min in the design probes); judged against chrono's documented floor contract")
     kani_engine.decide(v, "C16", tier, opts)
-    return v.finish(RULE)
+    if not opts.get("only") or "mir" in opts.get("only"):
+        m_part(v)
+    return v.finish(RULE + M_RULE)
+
+
+M_RULE = ("; Engine M: DateTime::into_unit executed from its MIR for each of the 16 unit pairs with the timestamp an SMT Int over the "
+          "whole i64 range; z3 (LIA) asked for a timestamp violating the NaT law, the exact-multiple law, the floor law or reaching a panic")
+
+
+def m_part(v):
+    """Full-range cross-check on mathematical integers (the 64-bit divider stalls the SAT back end)."""
+    import json, os
+    import mir_engine as M
+    from mir_engine import time_units as T, replay as rp
+    from mir_engine.mirparse import MirError
+    from common import REPLAYS, ensure_dir, log
+    short = {"Second": "s", "Millisecond": "ms", "Microsecond": "us", "Nanosecond": "ns"}
+    E = M.Engine(["tea-time"])
+    try:
+        fn = T.find_into_unit(E)
+        v.functions.add("tea_time::DateTime::into_unit (MIR " + fn.name + ")")
+        bad_pairs = 0
+        for a in T.UNITS:
+            for b in T.UNITS:
+                q, fails, unk = T.check_pair(E, fn, a, b)
+                v.evaluations += q
+                for u in unk:
+                    v.inconcl(f"into_unit {a}->{b}: solver unknown ({u})")
+                for msg, model in fails[:1]:
+                    bad_pairs += 1
+                    key = f"into_unit_mir_{short[a]}_{short[b]}::{msg}"
+                    if v.is_known(key):
+                        v.note_known(key)
+                        continue
+                    ts = int(model.get("ts", 0)) if model else 0
+                    p = rp._get()
+                    p.stdin.write(f"into_unit {short[a]} {short[b]} {ts}\n")
+                    p.stdin.flush()
+                    got = p.stdout.readline().strip()
+                    pf, pt = T.UNITS[a][1], T.UNITS[b][1]
+                    want = ts if a == b else (T.I64_MIN if ts == T.I64_MIN else (ts * (pt // pf) if pt >= pf else ts // (pf // pt)))
+                    d = ensure_dir(os.path.join(REPLAYS, "C16"))
+                    path = os.path.join(d, f"into_unit_{short[a]}_{short[b]}.json")
+                    json.dump({"property": "C16", "from": a, "to": b, "timestamp": ts, "native": got, "expected": want,
+                               "solver_message": msg}, open(path, "w"), indent=1)
+                    if got != f"R {want}":
+                        v.failure(key, path, f"DateTime::<{a}>::new({ts}).into_unit::<{b}>() natively gives '{got}', expected {want}")
+                    else:
+                        v.inconcl(f"into_unit {a}->{b}: solver counterexample ts={ts} does not reproduce natively; case {path}")
+                if not fails and not unk:
+                    v.nontrivial += 1
+        log(f"  [M] into_unit: 16 unit pairs over the full i64 range, {E.solver.queries} queries, {bad_pairs} failing pairs")
+        v.bounds.append("Engine M: timestamps over the whole i64 range (SMT Int with range constraint), all 16 pairs")
+    except (M.ExecError, MirError) as e:
+        v.inconcl(f"cannot encode DateTime::into_unit: {e}")
+    finally:
+        v.solver_time += E.solver.time
+        v.engines["mir2smt"] = {"solver": "z3 4.8.12 (LIA)", "queries": E.solver.queries, "answers": E.solver.stats}
+        E.close()
 
 MANIFEST = {
-    "engine": "K",
-    "technique": "bounded model checking (Kani/CBMC, SAT) of into_unit / NaT guards over symbolic i64 timestamps",
+    "engine": "K+M",
+    "technique": "bounded model checking (Kani/CBMC, SAT) of into_unit / NaT guards over symbolic i64 timestamps; MIR->SMT symbolic "
+                 "execution of into_unit over mathematical integers (z3 LIA) for the full-range floor law",
     "design_ref": "DESIGN.md 3/C16",
-    "level_text": "CBMC decides, for every i64 timestamp (NaT laws, finer-unit law: whole representable range; floor law: "
-                  "quotients within +-2^12 with every residue), that DateTime::into_unit for all 16 unit pairs returns NaT for NaT, "
+    "level_text": "CBMC decides, for every i64 timestamp (NaT laws, finer-unit law: whole representable range; floor law under CBMC: "
+                  "quotients within +-2^12 with every residue; under z3 on the MIR: whole i64 range), that DateTime::into_unit for all 16 unit pairs returns NaT for NaT, "
                   "exact multiples toward finer units and the floor toward coarser units; counterexamples are replayed natively",
     "level_note": "trusted: Kani's MIR->goto translation, CBMC, CaDiCaL; chrono's documented floor contract stands in for chrono itself; "
                   "calendar field getters and the chrono round trip are outside the claim",
